@@ -528,3 +528,26 @@ def has_forward_ref(fs, path=None):
                 if any(ft in later for (ft, c, fn) in d[2]):
                     return True
     return False
+
+
+def reorder_structs(rng, fs):
+    """declare the structs of every file in a random order (a struct may then precede the structs
+    it contains: names are resolved file-wide, so this stays valid).  Returns True if some struct
+    now precedes one of its member types."""
+    forward = False
+    for f in fs["files"]:
+        pos = [i for i, d in enumerate(f["decls"]) if d[0] == "struct"]
+        if len(pos) < 2:
+            continue
+        ss = [f["decls"][i] for i in pos]
+        rng.shuffle(ss)
+        for i, d in zip(pos, ss):
+            f["decls"][i] = d
+        seen = set()
+        for d in f["decls"]:
+            if d[0] == "struct":
+                names = {x[1] for x in f["decls"] if x[0] == "struct"}
+                if any(ft in names and ft not in seen for ft, c, fn in d[2]):
+                    forward = True
+                seen.add(d[1])
+    return forward
